@@ -858,3 +858,71 @@ fn C20_fallback_resolver() {
     }
     assert_eq!(bad, 0);
 }
+
+// ---- ring backend (C18 / C20): only compiled when the probe is built with --features ring-resolver
+#[cfg(feature = "ring-resolver")]
+#[test]
+fn C18_C20_ring_primitives_equal_default() {
+    use snow::resolvers::RingResolver;
+    let mut bad = 0;
+    let (rr, dr) = (RingResolver, DefaultResolver);
+    for choice in [CipherChoice::ChaChaPoly, CipherChoice::AESGCM] {
+        let (mut a, mut b) = (rr.resolve_cipher(&choice).unwrap(), dr.resolve_cipher(&choice).unwrap());
+        let key = [0x42u8; 32]; a.set(&key); b.set(&key);
+        for nonce in [0u64, 1, 255, 256, 0x0102030405060708, u64::MAX - 1] {
+            for (adl, ptl) in [(0usize, 0usize), (0, 1), (7, 33), (32, 64), (5, 1000)] {
+                let ad: Vec<u8> = (0..adl).map(|x| x as u8).collect(); let pt: Vec<u8> = (0..ptl).map(|x| (x * 3 + 1) as u8).collect();
+                let (mut oa, mut ob) = (vec![0u8; ptl + 16], vec![0u8; ptl + 16]);
+                let (la, lb) = (a.encrypt(nonce, &ad, &pt, &mut oa), b.encrypt(nonce, &ad, &pt, &mut ob));
+                if la != lb || oa != ob { finding("C18", format!("{:?}: ring and default backends encrypt differently (nonce {:#x}, ad {} bytes, plaintext {} bytes)", choice, nonce, adl, ptl)); finding("C20", format!("{:?}: ring and default backends encrypt differently (nonce {:#x})", choice, nonce)); bad += 1; continue; }
+                // both decrypt each other's output, into exact-size and into large buffers
+                for room in [ptl, ptl + 16, ptl + 40] {
+                    let (mut da, mut db) = (vec![0x55u8; room], vec![0x55u8; room]);
+                    let (ra, rb) = (a.decrypt(nonce, &ad, &ob, &mut da), b.decrypt(nonce, &ad, &oa, &mut db));
+                    if ra != Ok(ptl) || rb != Ok(ptl) || da[..ptl] != pt[..] || db[..ptl] != pt[..] { finding("C18", format!("{:?}: ring/default cross-decryption fails (nonce {:#x}, plaintext {} bytes, out {} bytes): {:?} {:?}", choice, nonce, ptl, room, ra, rb)); bad += 1; }
+                }
+                // only the tag is modified: the would-be plaintext is the real one, it must not be left in the caller's buffer
+                if ptl >= 4 { let mut t = oa.clone(); let tl = t.len(); t[tl - 1] ^= 1; let mut d = vec![0x55u8; ptl + 16]; if a.decrypt(nonce, &ad, &t, &mut d).is_ok() { finding("C18", format!("{:?}: ring backend accepts a message with a modified tag", choice)); bad += 1; }
+                    if d[..ptl] == pt[..] { finding("C19", format!("{:?}: ring backend leaves the plaintext in the buffer after rejecting the message", choice)); bad += 1; } }
+            }
+        }
+    }
+    for choice in [HashChoice::SHA256, HashChoice::SHA512] {
+        let (mut a, mut b) = (rr.resolve_hash(&choice).unwrap(), dr.resolve_hash(&choice).unwrap());
+        for parts in [vec![0usize], vec![1], vec![3, 0, 61], vec![64, 64, 1], vec![200, 55]] {
+            a.reset(); b.reset();
+            for (k, l) in parts.iter().enumerate() { let d: Vec<u8> = (0..*l).map(|x| (x + k) as u8).collect(); a.input(&d); b.input(&d); }
+            let (mut oa, mut ob) = ([0u8; 64], [0u8; 64]); a.result(&mut oa); b.result(&mut ob);
+            if oa != ob { finding("C18", format!("{:?}: ring and default digests differ for input parts {:?}", choice, parts)); bad += 1; }
+            let (mut ha, mut hb) = ([0u8; 64], [0u8; 64]); a.hmac(&[7u8; 20], b"data", &mut ha); b.hmac(&[7u8; 20], b"data", &mut hb);
+            if ha != hb { finding("C18", format!("{:?}: ring and default HMAC differ", choice)); bad += 1; }
+            let (mut x1, mut x2, mut x3, mut y1, mut y2, mut y3) = ([0u8; 64], [0u8; 64], [0u8; 64], [0u8; 64], [0u8; 64], [0u8; 64]);
+            a.hkdf(&[1u8; 32], b"ikm", 3, &mut x1, &mut x2, &mut x3); b.hkdf(&[1u8; 32], b"ikm", 3, &mut y1, &mut y2, &mut y3);
+            if x1 != y1 || x2 != y2 || x3 != y3 { finding("C18", format!("{:?}: ring and default HKDF differ", choice)); bad += 1; }
+        }
+    }
+    assert_eq!(bad, 0);
+}
+#[cfg(feature = "ring-resolver")]
+#[test]
+fn C20_ring_sessions_equal_the_reference_vectors() {
+    use snow::resolvers::RingResolver;
+    // every cacophony vector both backends support, with ring preferred on the initiator, then on the responder
+    let mut bad = 0;
+    for v in vectors().into_iter().filter(|v| !v.name.contains("BLAKE") && v.name.contains("_25519_")).step_by(5) {
+        for ring_on_initiator in [true, false] {
+            let res = || -> BoxedCryptoResolver { Box::new(FallbackResolver::new(Box::new(RingResolver), Box::new(DefaultResolver))) };
+            let (mut i, mut r) = match (mk(&v, true, if ring_on_initiator { Some(res()) } else { None }), mk(&v, false, if ring_on_initiator { None } else { Some(res()) })) { (Ok(a), Ok(b)) => (a, b), _ => { finding("C20", format!("{}: build with the ring backend fails", v.name)); bad += 1; continue; } };
+            let nh = n_handshake_msgs(&v.name); let mut buf = vec![0u8; 70000]; let mut p = vec![0u8; 70000]; let mut ok = true;
+            for k in 0..nh.min(v.msgs.len()) {
+                let (payload, expect) = &v.msgs[k]; let (w, rd) = if k % 2 == 0 { (&mut i, &mut r) } else { (&mut r, &mut i) };
+                match w.write_message(payload, &mut buf) { Ok(n) if buf[..n] == expect[..] => {}, other => { finding("C20", format!("{}: handshake message {} written with the ring backend on the {} differs from the reference vector ({:?})", v.name, k, if ring_on_initiator { "initiator" } else { "responder" }, other.map(|_| "bytes differ"))); ok = false; break; } }
+                if rd.read_message(expect, &mut p).is_err() { finding("C20", format!("{}: mixed ring/default session fails at message {}", v.name, k)); ok = false; break; }
+            }
+            if !ok { bad += 1; if bad >= 4 { break; } continue; }
+            if let Some(h) = &v.hash { if i.get_handshake_hash() != &h[..] { finding("C20", format!("{}: handshake hash differs with the ring backend", v.name)); bad += 1; } }
+        }
+        if bad >= 4 { break; }
+    }
+    assert_eq!(bad, 0);
+}
